@@ -4,6 +4,7 @@
 package plan
 
 import (
+	"bytes"
 	"encoding/json"
 	"os"
 )
@@ -35,6 +36,8 @@ type Knobs struct {
 	SortCols        map[string][]string `json:"sort_cols,omitempty"` // index -> sort-index columns
 	Sched           bool   `json:"sched,omitempty"`            // seeded scheduler on
 	PreemptPermille int    `json:"preempt_permille,omitempty"` // probability of a forced switch at a yield point
+	DelayPermille   int    `json:"delay_permille,omitempty"`   // fraction of yield sites that hold tasks back (per-run subset)
+	DelayLen        int    `json:"delay_len,omitempty"`        // for how many scheduling decisions
 	MetricsKnobs    map[string]int `json:"metrics_knobs,omitempty"`
 	StatfsFreePct   int    `json:"statfs_free_pct,omitempty"`
 }
@@ -110,8 +113,22 @@ func Load(path string) (*Plan, error) {
 	return &p, nil
 }
 
+// Encode renders the plan without HTML escaping: raw event documents must keep their exact bytes.
+func (p *Plan) Encode(indent bool) ([]byte, error) {
+	var buf bytes.Buffer
+	enc := json.NewEncoder(&buf)
+	enc.SetEscapeHTML(false)
+	if indent {
+		enc.SetIndent("", " ")
+	}
+	if err := enc.Encode(p); err != nil {
+		return nil, err
+	}
+	return buf.Bytes(), nil
+}
+
 func (p *Plan) Save(path string) error {
-	b, err := json.MarshalIndent(p, "", " ")
+	b, err := p.Encode(false)
 	if err != nil {
 		return err
 	}
@@ -119,7 +136,7 @@ func (p *Plan) Save(path string) error {
 }
 
 func (p *Plan) Clone() *Plan {
-	b, _ := json.Marshal(p)
+	b, _ := p.Encode(false)
 	var q Plan
 	_ = json.Unmarshal(b, &q)
 	return &q
